@@ -145,6 +145,10 @@ def run(P, R, tier, cfg):
                     ok = True
     if ok:
         R.hold("d", "get_rule: rules.get(index.get(name)) under both read guards", fn=gr)
+    elif any(c.name.endswith("HashMap::get") and "rule_index" in fmt_sym(g_.sym_operand(c.args[0]), maxdepth=10) for g_ in [gr] + P.closures_of(gr) for c in g_.calls() if c.args) \
+            and any(c.name.endswith(("]>::get", "Vec::get", "slice::get", "::get")) and not c.name.endswith("HashMap::get") for g_ in P.closures_of(gr) for c in g_.calls() if c.args):
+        # both lookups are there but chained through closures (`index.get(name).and_then(|&p| rules.get(p))`): no verdict
+        R.undecide("d", "get_rule:shape", "get_rule looks the name up and fetches by position through a closure chain this rule does not read", gr)
     else:
         R.violate("d", "get_rule:shape", "get_rule does not look the position up in rule_index and fetch rules[pos] under both guards", gr)
 
@@ -193,7 +197,7 @@ def _events(P, fn):
         op = c.name.rsplit("::", 1)[1]
         if g[1] == "self.rules" and g[0] == "w" and op in POS_CHANGING:
             ev.setdefault(c.bb, []).append("vec:" + op)
-        if g[1] == "self.rule_index" and g[0] == "w" and op in ("insert", "remove", "clear", "retain", "drain", "entry", "extend"):
+        if g[1] == "self.rule_index" and g[0] == "w" and op in ("insert", "remove", "clear", "retain", "drain", "extend"):
             if c.bb in in_loop and op == "insert":
                 # rebuild loop? iterator = enumerate(iter(rules guard)), inserted (name.clone(), pos)
                 for lp in loops:
@@ -233,6 +237,19 @@ def _events(P, fn):
                     ev.setdefault(c.bb, []).append("idx:extend")
             else:
                 ev.setdefault(c.bb, []).append("idx:" + op)
+    # entry API: the map is only written by VacantEntry::insert / Entry::or_insert*, not by entry() itself
+    for c in fn.calls():
+        if c.bb not in nb or not c.args:
+            continue
+        nm = c.name
+        if nm.endswith(("VacantEntry::insert", "OccupiedEntry::insert", "Entry::or_insert", "Entry::or_insert_with", "Entry::or_default", "Entry::or_insert_with_key", "VacantEntry::insert_entry")):
+            src = fn.sym_operand(c.args[0])
+            for x in walk(src):
+                if x[0] == "call" and x[1].endswith("HashMap::entry") and x[2]:
+                    g2 = A.through_guard(x[2][0])
+                    if g2 and g2[1] == "self.rule_index":
+                        ev.setdefault(c.bb, []).append("idx:insert")
+                        break
     # stores through guards
     for bb in sorted(nb):
         for s in fn.stmts(bb):
